@@ -184,7 +184,7 @@ func TestEncryption(t *testing.T) {
 				}
 				// the file of this key: the one that opens to val
 				if len(f) >= aead.NonceSize() {
-					if pt, err := aead.Open(nil, f[:aead.NonceSize()], f[aead.NonceSize():], nil); err == nil && bytes.Equal(pt, val) {
+					if pt, err := aead.Open(nil, f[:aead.NonceSize()], f[aead.NonceSize():], []byte(key)); err == nil && bytes.Equal(pt, val) {
 						mine = f
 					}
 				}
@@ -193,8 +193,8 @@ func TestEncryption(t *testing.T) {
 				okAll, detail = false, "no file is nonce||Seal(key, nonce, value)"
 				break
 			}
-			// file[12:] == Seal(nil, file[:12], value) exactly
-			if !bytes.Equal(mine[aead.NonceSize():], aead.Seal(nil, mine[:aead.NonceSize()], val, nil)) {
+			// file[12:] == Seal(nil, file[:12], value, additional data = the key the value is stored under) exactly
+			if !bytes.Equal(mine[aead.NonceSize():], aead.Seal(nil, mine[:aead.NonceSize()], val, []byte(key))) {
 				okAll, detail = false, "ciphertext differs from an independent AES-GCM computation"
 			}
 			// writing the same value again gives another ciphertext
@@ -202,7 +202,7 @@ func TestEncryption(t *testing.T) {
 			var again []byte
 			for _, f := range rawFiles(dir) {
 				if len(f) >= aead.NonceSize() {
-					if pt, err := aead.Open(nil, f[:aead.NonceSize()], f[aead.NonceSize():], nil); err == nil && bytes.Equal(pt, val) {
+					if pt, err := aead.Open(nil, f[:aead.NonceSize()], f[aead.NonceSize():], []byte(key)); err == nil && bytes.Equal(pt, val) {
 						again = f
 					}
 				}
@@ -246,7 +246,7 @@ func TestEncryption(t *testing.T) {
 				b, _ := aes.NewCipher(k)
 				a, _ := cipher.NewGCM(b)
 				if len(f) >= 12 {
-					if pt, err := a.Open(nil, f[:12], f[12:], nil); err == nil && bytes.Equal(pt, val) {
+					if pt, err := a.Open(nil, f[:12], f[12:], []byte("k")); err == nil && bytes.Equal(pt, val) {
 						return "key:" + hx(string(k))
 					}
 				}
